@@ -23,7 +23,7 @@ from concurrent.futures import ThreadPoolExecutor
 SAN_ENV = {
     'ASAN_OPTIONS': 'abort_on_error=1:halt_on_error=1:detect_leaks=1:allocator_may_return_null=1:'
                     'strict_string_checks=1:handle_abort=0:print_summary=1:max_malloc_fill_size=4096:malloc_fill_byte=190',
-    'UBSAN_OPTIONS': 'print_stacktrace=1:halt_on_error=1',
+    'UBSAN_OPTIONS': 'print_stacktrace=1:halt_on_error=1:abort_on_error=1',
     'LSAN_OPTIONS': 'exitcode=23',
     'TSAN_OPTIONS': 'halt_on_error=0:second_deadlock_stack=1:exitcode=66',
 }
